@@ -1962,8 +1962,10 @@ def add_post_ops(rng, ps):
         names = list(target.parameters)
         c = rng.below(10)
         if c <= 3 and names:                                      # overwrite an existing parameter
-            fixed = [n for n in names if n not in target._unpacked_parameters_set] or names
-            op = [level, rng.choice(['set', 'add']), rng.choice(fixed), gen_value(rng, 2)]
+            n = rng.choice(names)
+            # a parameter that is marked to be unpacked must stay iterable (the library requires it when marking)
+            v = gen_unpackable(rng) if n in target._unpacked_parameters_set else gen_value(rng, 2)
+            op = [level, rng.choice(['set', 'add']), n, v]
         elif c <= 5:                                              # a parameter only this object has
             op = [level, rng.choice(['set', 'add']), gen_name(rng, set(names)), gen_value(rng, 2)]
         elif c <= 7 and names:
